@@ -246,7 +246,8 @@ PROPS = {
     ),
     "C14": dict(
         modules=["pd_actor"],
-        contracts=[f"{PDA}._process_request", f"{PDA}._process_request#from_run", f"{PDA}._handle_task_completion", f"{PDA}._run"],
+        contracts=[f"{PDA}._process_request", f"{PDA}._process_request#from_run", f"{PDA}._handle_task_completion", f"{PDA}._run",
+                   "frequenz.sdk.microgrid._power_wrapper:PowerWrapper._start_power_distributing_actor"],
         lemmas=[],
         bounded=[dict(kind="native_script", name="real PowerDistributingActor with a gated probe manager: seeded schedules of requests, "
                                                  "completions (also failing ones) and same-iteration arrivals", module="native.explore_scheduler")],
@@ -256,7 +257,8 @@ PROPS = {
                     "the group - its precondition is an obligation at both call sites; _run parks a request iff the group is in "
                     "flight and the parked one is always the latest (loop invariant with a ghost `last` map); "
                     "_handle_task_completion starts the parked request at once, whether the finished task returned or "
-                    "raised, and never touches another group.",
+                    "raised, and never touches another group. PowerWrapper creates and starts the actor once and hands it a "
+                    "request receiver with at least the default buffer (back-to-back requests for different groups are not lost).",
         assumptions=[EXTRACTION,
                      "model: asyncio.create_task starts the coroutine and returns a task that is not done; the done-callback "
                      "is invoked exactly once, after the task is done (library behaviour, assumed)",
